@@ -667,6 +667,69 @@ Pt xswiftec(const U256 &u_in, const U256 &t_in) {
 Pt ellswift_decode(const uint8_t ell64[64]) {
     return xswiftec(U256::from_be(ell64), U256::from_be(ell64 + 32));
 }
+static U256 dleq_challenge(const Pt &gen2, const Pt &r1, const Pt &r2, const Pt &p1, const Pt &p2) {
+    Sha256 h = tagged("DLEQ");
+    const Pt *order[5] = {&p1, &gen2, &p2, &r1, &r2};
+    for (const Pt *q : order) { uint8_t b[33]; ser33(*q, b); h.write(b, 33); }
+    uint8_t d[32]; h.finish(d);
+    return scalar_from_be_reduce(d);
+}
+bool dleq_verify(const U256 &s, const U256 &e, const Pt &p1, const Pt &gen2, const Pt &p2) {
+    U256 en = FN.neg(e);
+    Pt r1 = add(mulG(s), mul(en, p1));
+    Pt r2 = add(mul(s, gen2), mul(en, p2));
+    if (r1.inf || r2.inf) return false;
+    return dleq_challenge(gen2, r1, r2, p1, p2) == e;
+}
+void dleq_prove(const U256 &sk, const U256 &nonce, const Pt &gen2, U256 *s, U256 *e) {
+    Pt p1 = mulG(sk), p2 = mul(sk, gen2), r1 = mulG(nonce), r2 = mul(nonce, gen2);
+    *e = dleq_challenge(gen2, r1, r2, p1, p2);
+    *s = FN.add(nonce, FN.mul(*e, sk));
+}
+bool adaptor_verify(const uint8_t a[162], const Pt &X, const uint8_t msg32[32], const Pt &Y) {
+    Pt R, Rp;
+    if (!parse_pubkey(a, 33, &R)) return false;
+    U256 sigr = scalar_from_be_reduce(a + 1);
+    if (sigr.is_zero()) return false;
+    if (!parse_pubkey(a + 33, 33, &Rp)) return false;
+    bool ov = false;
+    U256 sp = scalar_from_be_reduce(a + 66, &ov);
+    if (ov || sp.is_zero()) return false;
+    U256 e = scalar_from_be_reduce(a + 98);
+    U256 sd = scalar_from_be_reduce(a + 130, &ov);
+    if (ov) return false;
+    if (Y.inf || X.inf) return false;
+    if (!dleq_verify(sd, e, Rp, Y, R)) return false;
+    U256 m = scalar_from_be_reduce(msg32), sn = FN.inv(sp);
+    Pt d = add(mulG(FN.mul(sn, m)), mul(FN.mul(sn, sigr), X));
+    if (d.inf) return false;
+    return d == Rp;
+}
+void adaptor_craft(const U256 &k, const Pt &Y, const uint8_t sp32[32], const U256 &dleq_nonce, uint8_t out[162]) {
+    Pt R = mul(k, Y), Rp = mulG(k);
+    ser33(R, out); ser33(Rp, out + 33);
+    memcpy(out + 66, sp32, 32);
+    U256 s, e; dleq_prove(k, dleq_nonce, Y, &s, &e);
+    e.to_be(out + 98); s.to_be(out + 130);
+}
+bool s2c_verify_commit(const uint8_t r32[32], const uint8_t data32[32], const uint8_t opening33[33]) {
+    Pt R0;
+    if (!parse_pubkey(opening33, 33, &R0)) return false;
+    uint8_t b[33], t32[32]; ser33(R0, b);
+    Sha256 h = tagged("s2c/ecdsa/point");
+    h.write(b, 33); h.write(data32, 32); h.finish(t32);
+    bool ov = false;
+    U256 t = scalar_from_be_reduce(t32, &ov);
+    if (ov) return false;
+    Pt R = add(R0, mulG(t));
+    if (R.inf) return false;
+    uint8_t x[32]; xbytes(R, x);
+    return scalar_from_be_reduce(x) == scalar_from_be_reduce(r32);
+}
+void s2c_host_commit(const uint8_t rho32[32], uint8_t out[32]) {
+    Sha256 h = tagged("s2c/ecdsa/data");
+    h.write(rho32, 32); h.finish(out);
+}
 void ecdh_default_hash(const Pt &sh, uint8_t out[32]) {
     uint8_t b[33]; ser33(sh, b);
     sha256(b, 33, out);
